@@ -278,11 +278,13 @@ MULTIPASS_STUBS = ["_WorkflowCoordinator.execute replaced by a generator of arbi
 MULTIPASS_BOUNDS = ("1-2 queries of 6 labels and one query of 10 labels (both flanks of a middle alignment become fragments), 1-2 references of 6 "
                     "labels; first-pass row per query chosen from {none, + at molecule start, - at molecule end, + at molecule end, + middle with "
                     "skipped labels, +/- middle of the long molecule}; second-pass row per fragment from {none, continuation, overlapping, other "
-                    "strand, crossing, other reference, molecule head, reverse tail}; label coordinates, "
+                    "strand, crossing, other reference, molecule head, reverse tail, fragment-relative, gap-filling, two-segment}; thorough adds "
+                    "engine-chosen records (any valid matching of <= 3 pairs in one or two segments over 5 x 6 labels, <= 2 pairs on the fragment, "
+                    "both strands); label coordinates, "
                     "seeds, pair scores > 0, unmatchedPenalty <= 0 and maxDifference >= 0 unbounded symbolic reals")
 
 
-def multipass_configs(tier):
+def multipass_configs(tier, prop=None):
     cfgs = [dict(KR=6, KQ=6, nq=1, nrefs=1, first=["none", "start+", "end-", "end+", "middle-skip+"],
                  second=["none", "continue+", "overlap+", "other-strand", "far-crossing+", "head+", "tail-", "fragment-tail+"]),
             dict(KR=6, KQ=6, nq=1, nrefs=1, first=["start-gap+", "two-segments+"], second=["none", "overlap-fill+", "overlap+", "continue+", "two-segments-tail+"]),
@@ -298,8 +300,9 @@ def multipass_configs(tier):
         cfgs.append(dict(KR=6, KQ=10, nq=1, nrefs=1))
         cfgs.append(dict(KR=6, KQ=6, nq=2, nrefs=2, first=["start+", "end-", "ref2-start+"], second=["none", "continue+", "other-strand", "ref2+"]))
         # engine-chosen records: any valid matching of <= 3 pairs (one or two segments) in the first pass, <= 2 pairs on the fragment
-        cfgs.append(dict(KR=5, KQ=6, nq=1, nrefs=1, first=["any+"], second=["none", "any+"]))
-        cfgs.append(dict(KR=5, KQ=6, nq=1, nrefs=1, first=["any-"], second=["none", "any-"]))
+        big = prop in ("C08", "C01")        # the two properties about joined records get the larger universe
+        cfgs.append(dict(KR=5 if big else 4, KQ=6 if big else 5, nq=1, nrefs=1, first=["any+"], second=["none", "any+"]))
+        cfgs.append(dict(KR=5 if big else 4, KQ=6 if big else 5, nq=1, nrefs=1, first=["any-"], second=["none", "any-"]))
     return cfgs
 
 
@@ -535,7 +538,7 @@ def make_body(prop):
 
 
 def multipass_unit(prop):
-    return Unit(name="multipass-modes", body=make_body(prop), configs=multipass_configs, functions=MULTIPASS_FUNCTIONS,
+    return Unit(name="multipass-modes", body=make_body(prop), configs=lambda tier: multipass_configs(tier, prop), functions=MULTIPASS_FUNCTIONS,
                 classify=classify_c08 if prop == "C08" else None,
                 bounds=MULTIPASS_BOUNDS, stubs=MULTIPASS_STUBS,
                 shard_depth=lambda cfg, tier: 10,
